@@ -57,7 +57,7 @@ func DefaultProfile() Profile {
 // TinyProfile: what tinyfo accepts (see c17.go for the experimentally established subset).
 func TinyProfile() Profile {
 	return Profile{MaxDepth: 4, MaxDecls: 5, MaxStmts: 4, Tiny: true, PermuteRecords: true,
-		Features: FPartial | FPipe | FIfValue | FIfStmt | FAndOr | FMatchU | FRecord | FTuple | FDestr | FSlice | FCallbacks | FRecursion | FFunParams | FEq}
+		Features: FPartial | FPipe | FIfValue | FIfStmt | FAndOr | FMatchU | FRecord | FTuple | FDestr | FSlice | FCallbacks | FRecursion | FFunParams | FEq | FStrEscapes}
 }
 
 type GenStatsT struct {
@@ -212,8 +212,15 @@ func printable(t *Type) bool { return isScalar(t) || t.K == TSlice && isScalar(t
 var words = []string{"a", "b", "ab", "abc", "foo", "bar", "x y", "", "Hello", "k=v", "1,2", "a,b,c", "zz", "Go", "fo", "end."}
 var oddWords = []string{"100%", "%d", "{x}", "say \"hi\"", "back\\slash", "tab\there", "two\nlines", "a{b}c", "50% {done}"}
 
+// tinyfo pastes a literal's body into the Go literal: the Go escapes \t \n \\ \" pass through; no
+// interpolation-like braces or percent signs matter there
+var tinyOddWords = []string{"tab\there", "two\nlines", "back\\slash", "say \"hi\"", "100%", "a{b}c"}
+
 func (g *gen) strLit() string {
-	if g.has(FStrEscapes) && g.r.Chance(1, 12) {
+	if g.has(FStrEscapes) && g.r.Chance(1, 8) {
+		if g.prof.Tiny {
+			return Choose(g.r, tinyOddWords)
+		}
 		return Choose(g.r, oddWords)
 	}
 	return Choose(g.r, words)
